@@ -847,7 +847,7 @@ static ly_bool
 lyd_validate_autodel_case_dflt(struct lyd_node **first, struct lyd_node **node, const struct lys_module *mod,
         struct lyd_node **diff)
 {
-    const struct lysc_node *schema;
+    const struct lysc_node *schema, *scase;
     struct lysc_node_choice *choic;
     struct lyd_node *iter = NULL;
     const struct lysc_node *slast = NULL;
@@ -862,16 +862,27 @@ lyd_validate_autodel_case_dflt(struct lyd_node **first, struct lyd_node **node, 
         return 0;
     }
 
-    choic = (struct lysc_node_choice *)schema->parent->parent;
-    assert(choic->nodetype == LYS_CHOICE);
+    scase = schema->parent;
+    while (1) {
+        choic = (struct lysc_node_choice *)scase->parent;
+        assert(choic->nodetype == LYS_CHOICE);
 
-    if (choic->dflt && (choic->dflt == (struct lysc_node_case *)schema->parent)) {
-        /* data of a default case, keep them */
-        return 0;
+        if (!choic->dflt || (choic->dflt != (struct lysc_node_case *)scase)) {
+            /* not a default case, it needs an explicit node to exist */
+            break;
+        }
+
+        if (!choic->parent || (choic->parent->nodetype != LYS_CASE)) {
+            /* data of a default case, keep them */
+            return 0;
+        }
+
+        /* data of a default case of a nested choice, they exist only if the case with the choice exists */
+        scase = choic->parent;
     }
 
     /* try to find an explicit node of the case */
-    while ((iter = lys_getnext_data(iter, *first, &slast, schema->parent, NULL))) {
+    while ((iter = lys_getnext_data(iter, *first, &slast, scase, NULL))) {
         if (!(iter->flags & LYD_DEFAULT)) {
             break;
         }
